@@ -855,6 +855,28 @@ func (in *Interp) symbolicLib(name string, fn *ssa.Function, args []Value, site 
 			}
 		}
 	}
+	// float-format atoms (the shortest round-trip text of a finite float64 term)
+	if at := singleFmtFloat(args[0]); at != nil {
+		switch name {
+		case "strconv.ParseFloat":
+			if in.concreteInt(args[1], "bitSize") == 64 {
+				// strconv contract: ParseFloat(FormatFloat(f, 'g', -1, 64), 64) == f for every finite f
+				return Tuple{symFloat(mkFPOfBits(at.t)), Iface{}}, true
+			}
+		case "strings.ToLower", "strings.TrimSpace":
+			// the text of a finite float consists of [-+0-9.e] only
+			return args[0], true
+		case "strings.Contains", "strings.HasPrefix", "strings.HasSuffix":
+			if pat, ok := args[1].(string); ok && pat != "" && !strings.ContainsAny(pat, "-+0123456789.e") {
+				return false, true
+			}
+		case "strings.ReplaceAll", "strings.Replace":
+			if old, ok := args[1].(string); ok && old != "" && !strings.ContainsAny(old, "-+0123456789.e") {
+				return args[0], true
+			}
+		}
+		unsup("%s on the text of a symbolic float", name)
+	}
 	// integer-format atoms
 	if at := singleFmtInt(args[0]); at != nil {
 		switch name {
@@ -911,6 +933,11 @@ func (in *Interp) symbolicLib(name string, fn *ssa.Function, args []Value, site 
 				return Tuple{symInt(at.t, true), Iface{}}, true
 			}
 		case "strconv.ParseFloat":
+			if at.base == 10 && in.concreteInt(args[1], "bitSize") == 64 {
+				// strconv contract: a decimal integer text is parsed to the nearest float64 (ties to even), which is what
+				// the conversion of the integer itself gives
+				return Tuple{symFloat(mkFPOfInt(at.t, true)), Iface{}}, true
+			}
 			unsup("ParseFloat of symbolic integer atom")
 		}
 	}
@@ -1269,6 +1296,70 @@ func init() {
 			return nil, true
 		}
 	}
+	// ---- floating point (IEEE-754 binary64 fragment of the term language) ----
+	reg("math.Float64frombits", func(in *Interp, fn *ssa.Function, a []Value, c *frame, s ssa.Instruction) (Value, bool) {
+		switch x := a[0].(type) {
+		case Int:
+			return math.Float64frombits(x.v), true
+		case Sym:
+			return symFloat(mkFPOfBits(x.t)), true
+		}
+		return nil, false
+	})
+	reg("math.Float64bits", func(in *Interp, fn *ssa.Function, a []Value, c *frame, s ssa.Instruction) (Value, bool) {
+		switch x := a[0].(type) {
+		case float64:
+			return Int{math.Float64bits(x)}, true
+		case SymF:
+			if b, ok := mkFPBits(x.t); ok {
+				return symInt(b, false), true
+			}
+			unsup("math.Float64bits of a computed symbolic float")
+		}
+		return nil, false
+	})
+	reg("math.IsNaN", func(in *Interp, fn *ssa.Function, a []Value, c *frame, s ssa.Instruction) (Value, bool) {
+		switch x := a[0].(type) {
+		case float64:
+			return math.IsNaN(x), true
+		case SymF:
+			return symBool(mkFPIsNaN(x.t)), true
+		}
+		return nil, false
+	})
+	reg("math.IsInf", func(in *Interp, fn *ssa.Function, a []Value, c *frame, s ssa.Instruction) (Value, bool) {
+		sign, ok := a[1].(Int)
+		if !ok {
+			unsup("math.IsInf with a symbolic sign")
+		}
+		switch x := a[0].(type) {
+		case float64:
+			return math.IsInf(x, int(int64(sign.v))), true
+		case SymF:
+			pos := mkFPCmp(OFPEq, x.t, mkFPConst(math.Inf(1)))
+			neg := mkFPCmp(OFPEq, x.t, mkFPConst(math.Inf(-1)))
+			switch {
+			case int64(sign.v) > 0:
+				return symBool(pos), true
+			case int64(sign.v) < 0:
+				return symBool(neg), true
+			}
+			return symBool(mkOr(pos, neg)), true
+		}
+		return nil, false
+	})
+	reg("math.Abs", func(in *Interp, fn *ssa.Function, a []Value, c *frame, s ssa.Instruction) (Value, bool) {
+		switch x := a[0].(type) {
+		case float64:
+			return math.Abs(x), true
+		case SymF:
+			if b, ok := mkFPBits(x.t); ok {
+				return symFloat(mkFPOfBits(mkBin(OBAnd, b, mkConst(^uint64(0)>>1, 64)))), true
+			}
+			unsup("math.Abs of a computed symbolic float")
+		}
+		return nil, false
+	})
 	reg("sort.SliceStable", sortSlice("stable_func"))
 	reg("sort.Slice", sortSlice("pdqsort_func"))
 	reg("sort.Strings", nil)
